@@ -127,6 +127,51 @@ def run(chk: Check):
                 wfcheck.compare(chk, I, ex, got, what, tol_for(I["kind"]) if what == "e" else wfcheck.TOL64,
                                 f"qr-state:{name}", tag=f"/after {name}")
         chk.traces += 1
+    # ------------------------------------------------------------------ free projection accumulates the norm factors
+    # propagate_free re-orthonormalises after every step and multiplies the triangular-factor determinants into
+    # prop_data["norms"]: the state it represents afterwards, overlap(Q) x norms_out, must be the state it propagated,
+    # overlap(A) x norms_in with A the propagated, not yet orthonormalised walker (same library calls, no QR)
+    from .. import runlevel as _rl
+    for (nelec, sd) in (((2, 1), 0), ((2, 2), 1), ((3, 1), 2)):
+        sysd = _rl.make_system(np.random.default_rng(1350 + sd + chk.seed), norb=4, nelec=nelec, nchol=3, trial_kind="uhf",
+                               walker_type="uhf", n_walkers=4, dt=0.05, vscale=0.5, proxied=False)
+        trial, prop, ham = sysd["trial"], sysd["prop"], sysd["ham"]
+        hdp = ham.build_measurement_intermediates(dict(sysd["ham_data"]), trial, sysd["wave_data"])
+        hdp = ham.build_propagation_intermediates(hdp, prop, trial, sysd["wave_data"])
+        r3 = np.random.default_rng(1360 + sd + chk.seed)
+        nw = 4
+        wk = [jnp.array(r3.normal(size=(nw, 4, ne)) + 1j * r3.normal(size=(nw, 4, ne))) for ne in nelec]
+        norms_in = jnp.array(r3.normal(size=nw) + 1j * r3.normal(size=nw))
+        fields = jnp.array(r3.normal(size=(nw, hdp["chol"].shape[0])))
+        pdp = prop.init_prop_data(trial, sysd["wave_data"], hdp, None)
+        pdp["walkers"], pdp["norms"] = [jnp.array(x) for x in wk], norms_in
+        shift_term = jnp.einsum("wg,sg->sw", fields, hdp["mf_shifts_fp"])
+        consts = jnp.einsum("sw,s->sw", jnp.exp(-jnp.sqrt(prop.dt) * shift_term), jnp.exp(prop.dt * hdp["h0_prop_fp"]))
+        A = prop._multiply_constant(prop._apply_trotprop(hdp, [jnp.array(x) for x in wk], fields), consts)
+        ref = np.asarray(trial.calc_overlap(A, sysd["wave_data"])) * np.asarray(norms_in)
+        for step in range(2):
+            out = prop.propagate_free(trial, hdp, pdp, fields, sysd["wave_data"])
+            got = np.asarray(out["overlaps"])
+            Q = [np.asarray(x) for x in out["walkers"]]
+            chk.case(("propagate_free-norms", nelec, step))
+            chk.traces += 1
+            bad = []
+            if not all(np.allclose(q[k].conj().T @ q[k], np.eye(q.shape[2]), atol=1e-10) for q in Q for k in range(nw)):
+                bad.append("returned walkers are not orthonormal")
+            if np.max(np.abs(np.asarray(trial.calc_overlap(out["walkers"], sysd["wave_data"])) * np.asarray(out["norms"]) - ref)
+                      / np.abs(ref)) > 1e-9:
+                bad.append(f"overlap(Q) x norms = {(np.asarray(trial.calc_overlap(out['walkers'], sysd['wave_data'])) * np.asarray(out['norms'])).tolist()} "
+                           f"but the propagated state has overlap(A) x norms_in = {ref.tolist()}")
+            if np.max(np.abs(got - ref) / np.abs(ref)) > 1e-9:
+                bad.append("prop_data['overlaps'] is not the overlap of the propagated state")
+            if bad:
+                chk.violation("qr-state:propagate_free:accumulated-norms", f"propagate_free (uhf, nelec {nelec}, step {step + 1}): " + "; ".join(bad),
+                              {"nelec": list(nelec), "seed": chk.seed})
+                break
+            # second step from the returned state
+            pdp = out
+            A = prop._multiply_constant(prop._apply_trotprop(hdp, out["walkers"], fields), consts)
+            ref = np.asarray(trial.calc_overlap(A, sysd["wave_data"])) * np.asarray(out["norms"])
     # ------------------------------------------------------------------ initial walkers
     for I in insts + var_insts:
         trial, wd, hd, ham = wf.build_lib(I)
